@@ -19,7 +19,8 @@ RULE = ("stored values (atoms, containers, dataclass-likes, values holding Is(e)
         "spellings (x==s, s==x, x!=s, x<=s, s>=x, x>=s, s<=x, x in s, s[k]==x, s[k1][k2]==x, x<=s[k], x in s[k]); plus all 36 ordered "
         "pairs of operations on one snapshot; each program is executed twice (active without flags vs. snapshot:=identity) and "
         "a third time with the library's inactive state; non-trivial = the plain run produced at least one True and one False "
-        "answer or an exception-free log that the active run had to reproduce; distinct = (stored, op, compared sequence)")
+        "answer or an exception-free log that the active run had to reproduce; distinct = (stored, op, compared sequence)"
+        "; plus a real-session differential (active vs disable) over re-evaluated sites incl. 18 star-container shapes")
 ASSUMPTIONS = ["only comparisons that do not raise on the plain value are compared (property scope)",
                "bounds only over totally ordered values of one kind; s[k] only on dict-valued snapshots",
                "dirty-equals values cannot be executed here (package absent)"]
